@@ -826,7 +826,7 @@ func (f *Frame) execLoop(st *State, label string, n ast.Node, modified []types.O
 		}
 	}
 	f.havocGhostInLoop(head, n)
-	if len(f.c.specs.Tracked) > 0 {
+	if len(f.c.tracked) > 0 {
 		hasCall := false
 		ast.Inspect(n, func(x ast.Node) bool {
 			if _, ok := x.(*ast.CallExpr); ok {
@@ -846,10 +846,28 @@ func (f *Frame) execLoop(st *State, label string, n ast.Node, modified []types.O
 	exit := iter.fork() // guard evaluation may have side conditions; exit path uses the same evaluation
 	iter.assume(c)
 	exit.assume(not(c))
+	iterStart := iter.fork()
 	end := body(iter)
 	f.brk = f.brk[:len(f.brk)-1]
 	ends := append([]*State{end}, bc.continues...)
 	merged := f.mergeStates(ends)
+	if merged != nil && ls != nil && len(ls.Each) > 0 {
+		// per-iteration postconditions: the end of the body of an arbitrary iteration, `continue` paths included
+		be := f.loopSpecEnv(iterStart)
+		be.gh = map[string]Val{}
+		for gk, gv := range iterStart.gh {
+			be.gh[gk] = gv
+		}
+		for _, ec := range ls.Each {
+			func() {
+				defer f.specGuard(n, "loop each "+ec.Label)
+				env := f.loopSpecEnv(merged)
+				env.before = be
+				t := f.specBool(merged, ec.Expr, env)
+				f.oblige(merged, "loop", fmt.Sprintf("%d:each:%s", ord, ec.Label), t, n.Pos(), "every iteration: "+ec.Src)
+			}()
+		}
+	}
 	if merged != nil {
 		if post != nil {
 			merged = post(merged)
